@@ -82,6 +82,11 @@ def run_case(c):
             async with cl.upload_stream(P(path + [fname])) as st:
                 await st.write(bytes(payload))
             rec["file_listed"] = [p.name for p, i in await cl.list(P(path))]
+            step = "fstat"
+            fst = await cl.stat(P(path + [fname]))
+            rec["file_stat_type"] = fst["type"]
+            rec["file_stat_size"] = int(fst["size"])
+            rec["file_is_file"] = bool(await cl.is_file(P(path + [fname]))) and not await cl.is_dir(P(path + [fname]))
             step = "retr"
             async with cl.download_stream(P(path + [fname])) as st:
                 rec["got"] = list(await st.read())
@@ -144,7 +149,7 @@ def run(tier, seed):
         mid = {"d": sorted(start["d"] + [["R"] + path]), "f": [{"p": ["R"] + path + [c["fname"]], "c": [1, 2, 3, 4, 9, 8]}]}
         d = {"completed": rec["completed"] and not rec["hang"], "name": c["name"], "fname": c["fname"], "gname": c["gname"], "path": path, "parent": prefix,
              "payload": [1, 2, 3, 4], "payload2": [9, 8], "tree_start": {"d": sorted(start["d"]), "f": []}, "expected_mid": mid}
-        for k, dflt in (("pwd", []), ("pwd_after_cdup", []), ("listed", []), ("stat_type", ""), ("exists", False), ("file_listed", []),
+        for k, dflt in (("pwd", []), ("pwd_after_cdup", []), ("listed", []), ("stat_type", ""), ("exists", False), ("file_stat_type", ""), ("file_stat_size", -1), ("file_is_file", False), ("file_listed", []),
                         ("got", []), ("got_after_append", []), ("renamed_listed", []), ("got_renamed", []), ("back_listed", []),
                         ("tree_mid", {"d": [], "f": []}), ("tree_end", {"d": [], "f": []})):
             d[k] = rec.get(k, dflt)
